@@ -901,7 +901,7 @@ def check_e2e(chk, build, m, oracle, ncases):
 def run(chk):
     chk.trusted_base = common.BASE_TRUST + [
         "translate/units/_cmp.py + translate/c2gallina.py (clang JSON AST): the comparison part of the C comparators (sort.c cmp_int64) is translated to Gallina on every run, the statements that fetch the compared integers are pinned as normalised source text, not translated",
-        "hand model coq/Emu/SortDefs.v of sort_replace, the sort module, and the two-mux breakdown pipeline on the bay's dirty list; "
+        "hand model coq/Emu/SortDefs.v of sort_replace and the sort module; its two-mux breakdown pipeline is proved to be an instance of the bay model (the wiring coq/Emu/BayBreakdownDefs.v; C20_pipeline_is_bay_instance), so the worklist is not modelled twice; "
         "validated each run against the compiled src/emu/sort.c, bay.c, chan.c, mux.c and the static connect_cpu/select_tr/select_idle "
         "of {nosv,nanos6}/breakdown.c (harness/sort_h.c #includes breakdown.c)",
         "glibc qsort sorts int64_t correctly (first callback of the sort module: memcpy + qsort); modelled as insertion sort",
